@@ -11,7 +11,7 @@ register('C01', level='other', sidecars=BASE + ['solution', 'net_bounded', 'net_
          explanation='proved: element value laws, predicates, voltage = potential difference, power = v*conj(i) (contracts on the real functions, all inputs). '
                      'bounded: the full solver on five fixed topologies with ALL element values symbolic - KCL at every node incl. the reference node, KVL, '
                      'every element law in the library reference directions, Tellegen, totality ("a valid network never fails to solve")')
-register('C02', level='other', sidecars=BASE + ['components', 'periodic', 'transformers', 'solution', 'net_ops_bounded'], trusted=NUM,
+register('C02', level='other', sidecars=BASE + ['components', 'periodic', 'transformers', 'solution', 'net_ops_bounded', 'net_bounded'], trusted=NET,
          explanation='contracts on the component->branch translators (exact immittances and source phasors at every w, frequency gating), on '
                      'the DC/complex solution wrappers (peak vs RMS scaling, real part at w=0) and on the element value helpers; the network '
                      'solver underneath is covered under C01')
@@ -35,7 +35,7 @@ register('C17', level='proof', sidecars=BASE + ['components', 'loaders', 'dump_l
          explanation='loader table, to_complex, load_network, dump_load round trips under the assumed json/yaml contract')
 register('C19', level='proof', sidecars=BASE + ['components', 'periodic', 'loaders', 'dump_load', 'net_ops_bounded', 'statespace'], trusted=NUM,
          explanation='raises-iff contracts on constructors and loaders')
-register('C09', level='other', sidecars=BASE + ['components', 'periodic', 'transformers', 'multifreq'], trusted=NUM + ['numpy-array'],
+register('C09', level='other', sidecars=BASE + ['components', 'periodic', 'transformers', 'multifreq'], trusted=NUM + ['numpy-array'], extras=[standin.make('frequencies', 'frequencies.py')],
          explanation='contracts on frequency_components (sinusoidal sources; periodic source with up to 8 harmonics), TimeDomainSolution (sum of |X_k| cos(w_k t + arg X_k), power = v(t) i(t)) '
                      'and FrequencyDomainSolution (one- and two-sided) for an arbitrary stubbed network solver; per-harmonic source phasors are the periodic translator contracts of C07')
 register('C20', level='proof', sidecars=BASE + ['components', 'loaders', 'dump_load', 'net_ops_bounded'], trusted=NUM + ['frame'], extras=[frame.obligations],
@@ -60,7 +60,7 @@ register('C13', level='other', sidecars=BASE + ['components', 'schematic', 'sche
                      'polarity start->end unless reversed) and the translator table maps each symbol class to its own translator. Bounded: parser and circuit_translator on fixed drawings '
                      '(wire-connected terminals are one node, labels and ground name their nodes, insertion order irrelevant, distinct nodes get distinct names, >1 ground rejected, unknown symbol rejected); '
                      'real-schemdraw stand-in for rotation / unit / wire subdivision / label order')
-register('C14', level='other', sidecars=['schematic_solution', 'declarative'], trusted=NUM + ['schemdraw'],
+register('C14', level='other', sidecars=['schematic_solution', 'declarative'], trusted=NUM + ['schemdraw'], extras=[standin.make('display', 'display.py')],
          explanation='proved at the call boundary for all values and options: each annotation adapter passes sign*quantity (sign = -1 iff reverse; potentials never negated), the right unit and the display '
                      'options to the display helper; draw_* request the text for that element and direction and hand it, with direction flag reverse xor element.is_reverse, to the label symbol; '
                      'unknown names raise. The display helpers (number -> text) are kept abstract here and covered by the C18 stand-in.')
